@@ -123,6 +123,14 @@ pub fn remove_double_apply(mut sexp: Rc<SExp>, spine: bool) -> (bool, Rc<SExp>) 
     let mut was_transformed = false;
 
     while any_transformation {
+        // A rewrite may have produced a quoted expression: its contents are data.
+        if spine && was_transformed {
+            if let Ok(NodeSel::Cons(_, _)) =
+                NodeSel::Cons(AtomValue::Here(&[1]), ThisNode).select_nodes(sexp.clone())
+            {
+                break;
+            }
+        }
         if let SExp::Cons(l, a, b) = sexp.borrow() {
             // These transformations play on each other but finalize together.
             let (a_changed, new_a) = remove_double_apply(a.clone(), true);
